@@ -327,6 +327,12 @@ var isKinds = []int{kStr, kBool, kNum, kArr, kObj, kNull}
 // VHC05LogicUnaryIs: ! - + && || is, on every document kind, with short-circuit
 // evaluation observed through a side effect in the right operand.
 func VHC05LogicUnaryIs() {
+	if vh.Choose("spoil", 2) == 1 {
+		// an earlier program wrote into the RESULTS of logical operators (`(!n)++` is what
+		// `!n++` means): later results are fresh values all the same
+		var sink vh.Out
+		_, _ = lang.EvalProgram("BEGIN { n = 0; a = (!n)++; b = (1 && 1)--; c = (0 || 0)++; d = !1; d += 5; e = (!0); e = 'x'; (1 is number)++ }", nil, nil, &sink, false)
+	}
 	lk := vh.Choose("lk", nDocKinds)
 	l, ls := mkOperand("l", lk, 2)
 	strShape("l", ls)
@@ -630,4 +636,44 @@ func VHC05Repeat() {
 	out, k := runProg(prog, []any{map[string]any{"l": a.doc, "r": b.doc}, map[string]any{"l": b.doc, "r": a.doc}})
 	vh.Reach("repeated evaluation compared")
 	vh.Assert(k == OK && out == w1+"\n"+w2+"\n", "C05: `x "+op+" y` evaluated again with other operands yields the value for those operands")
+}
+
+// VHC05Self: the same operand on both sides of an operator (the same document field, the
+// same variable, the same unset name) gets the table's value like any other pair.
+func VHC05Self() {
+	ops := append(append([]string{}, cmpOps...), "+", "-", "*", "&&", "||")
+	op := ops[vh.Choose("op", len(ops))]
+	spec := func(x sv) sres {
+		switch op {
+		case "+", "-", "*":
+			return specArith(op, x, x)
+		case "&&":
+			return sres{kind: resBool, b: specT(x)}
+		case "||":
+			return sres{kind: resBool, b: specT(x)}
+		}
+		return specCompare(op, x, x)
+	}
+	if vh.Choose("unset", 2) == 1 {
+		cell, k, _ := evalExpr("nosuchvar "+op+" nosuchvar", map[string]any{})
+		vh.Reach("self operands evaluated")
+		checkResult(cell, k, spec(sv{kind: kUnset}), "C05 unset "+op+" the same unset name")
+		return
+	}
+	lk := vh.Choose("lk", nDocKinds)
+	l, ls := mkOperand("l", lk, 1)
+	strShape("l", ls)
+	if op == "+" && lk == kStr {
+		return
+	}
+	route := vh.Choose("route", 2)
+	var cell *lang.Cell
+	var k int
+	if route == 0 {
+		cell, k, _ = evalExpr("$.l "+op+" $.l", map[string]any{"l": l})
+	} else {
+		cell, k, _ = evalExpr("[$.l, $.l][0] "+op+" $.l", map[string]any{"l": l})
+	}
+	vh.Reach("self operands evaluated")
+	checkResult(cell, k, spec(ls), "C05 "+kindNames[lk]+" "+op+" itself")
 }
